@@ -76,9 +76,9 @@ package keygen
 //@   ensures [C17.every-accepted-commitment-is-cofactor-cleared] isnil(sentf(ch, old(sent(ch)), "unWrappedErr")) ==> (forall c in 0..len(sentf(ch, old(sent(ch)), "pjVs")) :: torsionfree(round.Parameters.ec, px(sentf(ch, old(sent(ch)), "pjVs")[c]), py(sentf(ch, old(sent(ch)), "pjVs")[c])))
 //@   loop 0 invariant (forall c in 0..$iter :: torsionfree(round.Parameters.ec, px(PjVs[c]), py(PjVs[c]))) && (forall c in 0..$iter :: (validPoint(PjVs[c]) && PjVs[c].curve == round.Parameters.ec)) && (forall c in $iter..len(PjVs) :: (validPoint(PjVs[c]) && PjVs[c].curve == round.Parameters.ec)) && (isnil(PjVs) || fresh(PjVs))
 
-//@ define kgChRes(round, ch) = (isnil(sentf(ch, 0, "unWrappedErr")) ==> kgRowEd(round, sentf(ch, 0, "pjVs")))
+//@ define kgChRes(round, ch, Vc) = (isnil(sentf(ch, 0, "unWrappedErr")) ==> (kgRowEd(round, sentf(ch, 0, "pjVs")) && arr(sentf(ch, 0, "pjVs")) != arr(Vc)))
 //@ func (*round3).Start
-//@   deadpoints 8
+//@   deadpoints 5
 //@   note the error branches after ECPoint.Add (loops 7 and 9) and after NewECPoint of the summed key are unreachable on the Edwards curve (lemma L-edwards-closed)
 //@   props C06 C05 C03
 //@   requires round != nil && round.round2 != nil && round.round2.round1 != nil && round.round2.round1.base != nil && edKgWF(round)
@@ -93,11 +93,11 @@ package keygen
 //@   loop 2 invariant (forall k in 0..$iter :: (k != PIdx ==> (chs[k] != nil && fresh(chs[k]) && sent(chs[k]) == 0 && recvd(chs[k]) == 0 && chs[k] != round.end))) && (forall a, b in 0..$iter :: ((a != b && a != PIdx && b != PIdx) ==> chs[a] != chs[b]))
 //@   loop 3 invariant round.started && fresh(Vc) && kgRowEd(round, Vc) && fresh(chs) && len(chs) == kgN(round) && Ps == round.Parameters.parties.partyIDs && PIdx == round.Parameters.partyID.Index && sent(round.end) == old(sent(round.end))
 //@   loop 3 invariant (forall k in 0..kgN(round) :: (k != PIdx ==> (chs[k] != nil && fresh(chs[k]) && recvd(chs[k]) == 0 && chs[k] != round.end))) && (forall a, b in 0..kgN(round) :: ((a != b && a != PIdx && b != PIdx) ==> chs[a] != chs[b]))
-//@   loop 3 invariant forall k in 0..kgN(round) :: (k != PIdx ==> ((k < $iter ==> (sent(chs[k]) == 1 && kgChRes(round, chs[k]))) && (k >= $iter ==> sent(chs[k]) == 0)))
+//@   loop 3 invariant forall k in 0..kgN(round) :: (k != PIdx ==> ((k < $iter ==> (sent(chs[k]) == 1 && kgChRes(round, chs[k], Vc))) && (k >= $iter ==> sent(chs[k]) == 0)))
 //@   loop 4 invariant round.started && fresh(Vc) && kgRowEd(round, Vc) && fresh(chs) && len(chs) == kgN(round) && fresh(vssResults) && len(vssResults) == kgN(round) && fresh(culprits) && arr(vssResults) != arr(chs) && Ps == round.Parameters.parties.partyIDs && PIdx == round.Parameters.partyID.Index && sent(round.end) == old(sent(round.end))
 //@   loop 4 invariant (forall k in 0..kgN(round) :: (k != PIdx ==> (chs[k] != nil && chs[k] != round.end))) && (forall a, b in 0..kgN(round) :: ((a != b && a != PIdx && b != PIdx) ==> chs[a] != chs[b]))
-//@   loop 4 invariant forall k in $iter..kgN(round) :: (k != PIdx ==> (sent(chs[k]) == 1 && recvd(chs[k]) == 0 && kgChRes(round, chs[k])))
-//@   loop 4 invariant forall k in 0..$iter :: (k != PIdx ==> (isnil(vssResults[k].unWrappedErr) ==> kgRowEd(round, vssResults[k].pjVs)))
+//@   loop 4 invariant forall k in $iter..kgN(round) :: (k != PIdx ==> (sent(chs[k]) == 1 && recvd(chs[k]) == 0 && kgChRes(round, chs[k], Vc)))
+//@   loop 4 invariant forall k in 0..$iter :: (k != PIdx ==> (isnil(vssResults[k].unWrappedErr) ==> (kgRowEd(round, vssResults[k].pjVs) && arr(vssResults[k].pjVs) != arr(Vc))))
 //@   loop 4 invariant len(culprits) == 0 ==> (forall k in 0..$iter :: (k != PIdx ==> isnil(vssResults[k].unWrappedErr)))
 //@   loop 5 invariant round.started && sent(round.end) == old(sent(round.end)) && len(culprits) > 0
 //@   loop 6 invariant round.started && fresh(Vc) && kgRowEd(round, Vc) && fresh(vssResults) && len(vssResults) == kgN(round) && fresh(culprits) && len(culprits) == 0 && Ps == round.Parameters.parties.partyIDs && PIdx == round.Parameters.partyID.Index && sent(round.end) == old(sent(round.end))
